@@ -287,6 +287,15 @@ Proof.
   - rewrite P2. exact N1.
   - exact N2.
 Qed.
+Lemma step_deliver_pi aw : AInv aw -> AInv (a_step Repaired aw ADeliverPI).
+Proof.
+  destruct aw as [w q]. intros I. cbn [a_step a_w a_q]. destruct q as [|[sid k0] q']; [exact I|].
+  destruct (pppoe_handle w ((sid, k0) :: q') sid k0 I) as [I1 [N1 P1]].
+  destruct (ipoe_handle _ ((sid, k0) :: q') sid k0 I1) as [I2 [N2 P2]].
+  apply (drop_head _ (sid, k0) q' I2); cbn [fst].
+  - exact N2.
+  - rewrite P2. exact N1.
+Qed.
 Lemma step_padt aw k : AInv aw -> AInv (a_step Repaired aw (APadt k)).
 Proof.
   destruct aw as [w q]. intros I. cbn [a_step a_w a_q]. destruct (m_get k (w_pp_key w)) as [s|]; [|exact I].
@@ -393,12 +402,13 @@ Qed.
 
 Lemma a_step_inv aw o : AInv aw -> AInv (a_step Repaired aw o).
 Proof.
-  intros I. destruct o as [k|k| |k|k].
+  intros I. destruct o as [k|k| |k|k| ].
   - apply step_create; exact I.
   - apply step_padr; exact I.
   - apply step_deliver; exact I.
   - apply step_padt; exact I.
   - apply step_oper; exact I.
+  - apply step_deliver_pi; exact I.
 Qed.
 Lemma a_run_inv ops : forall aw, AInv aw -> AInv (a_run Repaired aw ops).
 Proof. induction ops as [|o r IH]; intros aw I; [exact I|]. cbn [a_run fold_left]. apply IH. apply a_step_inv. exact I. Qed.
@@ -447,3 +457,12 @@ Lemma async_example :
   e2e_snapshot (a_w (a_run Repaired aworld0 [APadr ak; ACreateI ak; AOperI ak; APadr ak; ADeliver; ADeliver; ADeliver])) ak
     = (0%nat, 1%nat, Some proto_pppoe).
 Proof. vm_compute. repeat split; reflexivity. Qed.
+
+(* the two handler orders of one delivery agree on everything the components keep and on every registry entry:
+   shown on the interleavings of the example; the invariant above holds for either order in every history *)
+Lemma deliver_orders_example :
+  e2e_snapshot (a_w (a_run Repaired aworld0 [ACreateI ak; APadr ak; ADeliverPI])) ak =
+  e2e_snapshot (a_w (a_run Repaired aworld0 [ACreateI ak; APadr ak; ADeliver])) ak /\
+  e2e_snapshot (a_w (a_run Repaired aworld0 [APadr ak; ACreateI ak; AOperI ak; APadr ak; ADeliverPI; ADeliver; ADeliverPI])) ak =
+  (0%nat, 1%nat, Some proto_pppoe).
+Proof. vm_compute. split; reflexivity. Qed.
